@@ -73,7 +73,7 @@ LEDGER = {
     "C11": dict(profile="mixed", flags=["-alloc", "-adversarial", "75"], preds=["P11_Shape", "P11_ShapeVerdict", "P11_Alloc"],
                 mc=([M("ESDTTransfer,ESDTNFTTransfer,MultiESDTNFTTransfer,create", rejected=True, hs=("u0a", "u1a")), M("mintburn,metaops,create", rejected=True, hs=("u0a",)), M("kv,flags", rejected=True, hs=("u0a",)), M("acct,handover", rejected=True, hs=("u0a", "u1a"))],
                     [M("ESDTTransfer,ESDTNFTTransfer,MultiESDTNFTTransfer,create", rejected=True, hs=("u0a", "u1a")), M("mintburn,metaops,create,flags", rejected=True, hs=("u0a", "u1a")), M("kv,flags,acct", rejected=True, hs=("u0a", "u1a")), M("handover,roles", rejected=True, hs=("u0a", "u1a"))]),
-                extra_runs=[("gas", ["-gassweep", "-alloc"], 0.5)],
+                extra_runs=[("gas", ["-gassweep", "-alloc"], 0.5), ("kv", ["-gassweep", "-alloc"], 0.3)],
                 need=dict(shapebad=100, steps=1000, gas_max=20)),
     "C13": dict(profile="mixed", flags=["-triple"], preds=["P13_Replicas", "P13_InputIntact"],
                 extra_runs=[("gas", ["-triple"], 0.75)],      # histories with schedule changes and epoch notifications before the compared call
